@@ -30,6 +30,10 @@ Section Gens.
   Definition table (k : bool) (cap pcap : nat) : list (list P) := map (fun j => chain_take k j 0 cap) (seq 0 pcap).
   Definition canonical (cap pcap : nat) : gens := mkGens cap pcap (table true cap pcap) (table false cap pcap).
 
+  (* BulletproofGensShare::G(n) / H(n): self.gens.G_vec[self.share].iter().take(n); indexing an absent party panics *)
+  Definition share_view (arr : list (list P)) (j n : nat) : option (list P) :=
+    match nth_error arr j with Some v => Some (firstn n v) | None => None end.
+
   (* ---- AggregatedGensIter ---- *)
   Inductive step_out := Yield (x : P) (party gen : nat) | Done (party gen : nat) | IdxPanic.
 
